@@ -34,6 +34,28 @@ type GenCfg struct {
 	Comments bool   `json:"comments,omitempty"`
 	Comfort  bool   `json:"comfort,omitempty"`
 	NoOpt    bool   `json:"noopt,omitempty"`
+	// keyword / operator configuration: 0 default | 1 no keywords | 2 extra keywords colliding with
+	// identifiers | 3 text operators | 4 extra operators sharing prefixes with the built-in ones
+	KW int `json:"kw,omitempty"`
+}
+
+var kwExtra = []string{"let", "func", "if", "then", "else", "switch", "case", "default", "const", "try", "catch", "a", "x", "map", "numbers", "e0", "in", "1"}
+var kwTextOps = map[string]string{"and": "&", "or": "|", "mod": "%", "is": "=", "plus": "+", "x": "*", "less": "<", "not": "!", "then": "+"}
+
+func configKW[V any](g *funcGen.FunctionGenerator[V], kw int, pass func(a, b V) (V, error)) {
+	switch kw {
+	case 1:
+		g.SetKeyWords()
+	case 2:
+		g.SetKeyWords(kwExtra...)
+	case 4:
+		for _, op := range []string{"<=>", "**", "->>", "=>", "..", "&&", "|||", "<-", "-->", "!==", ":=", "<>", "=="} {
+			g.AddSimpleOp(op, false, pass)
+		}
+	}
+	if kw == 3 {
+		g.GetParser().TextOperator(kwTextOps)
+	}
 }
 
 type Arg struct {
@@ -227,6 +249,7 @@ func newGen(c GenCfg) genI {
 		if c.NoOpt {
 			g.SetOptimizer(nil)
 		}
+		configKW(g, c.KW, func(a, b float64) (float64, error) { return a, nil })
 		if c.Comments {
 			g.GetParser().AllowComments()
 		}
@@ -246,6 +269,7 @@ func newGen(c GenCfg) genI {
 		if c.NoOpt {
 			g.SetOptimizer(nil)
 		}
+		configKW(g, c.KW, func(a, b bool) (bool, error) { return a, nil })
 		if c.Comments {
 			g.GetParser().AllowComments()
 		}
@@ -255,6 +279,7 @@ func newGen(c GenCfg) genI {
 		if c.NoOpt {
 			fg.SetOptimizer(nil)
 		}
+		configKW(fg.FunctionGenerator, c.KW, func(a, b value.Value) (value.Value, error) { return a, nil })
 		if c.Comments {
 			fg.GetParser().AllowComments()
 		}
